@@ -318,7 +318,7 @@ def tie(ctx):
                 continue
             store.append((case, f))
             divs.append(Divergence("pred.tree-inv" if f.kind == "predicate" else "corr.tree", {"case": case, "phase": f.phase, "path": f.path}, f.what, "ok"))
-        if ctx.elapsed() > (560 if ctx.thorough else 80):
+        if ctx.elapsed() > (560 if ctx.thorough else 200):
             ctx.note("time budget reached; remaining cases skipped")
             break
     tie.store = store
